@@ -44,8 +44,32 @@ class RaisingBlock(BaseModbusDataBlock):
         return iter([])
 
 
+def with_prelude(rng, desc, gen_history):
+    """the unit had ANOTHER set of tables before, and served requests on them (every function code may have been used); then the
+    application installed the tables of `desc` at run time through the public ModbusSlaveContext.register().  From then on the
+    unit must behave exactly like one built with those tables."""
+    old = gen_layout(rng, small=True, big_p=0.0)
+    return dict(desc, prelude={'ctx': dict(old, zero=desc['zero'], zconf=desc.get('zconf', 'explicit')),
+                               'reqs': gen_history(rng, old, rng.choice([4, 8, 14]), 0.05)})
+
+
 def mk_slave(desc):
     blocks = [RaisingBlock(b.get('exc', 'runtime')) if b['kind'] == 'broken' else mk_block(b) for b in desc['blocks']]
+    pre = desc.get('prelude')
+    if pre:
+        ctx, _ = mk_slave(pre['ctx'])
+        h = Handler(ModbusServerContext(slaves=ctx, single=True))
+        dec = ServerDecoder()
+        for r in pre['reqs']:
+            try:
+                obj = dec.decode(enc_req(r))
+                if obj is not None:
+                    h.execute(obj)
+            except Exception:  # noqa
+                pass
+        for t, fc in (('d', 2), ('c', 1), ('i', 4), ('h', 3)):
+            ctx.register(fc, t, blocks[desc[t]])
+        return ctx, blocks
     omit = desc.get('omit') or []
     if omit:
         # tables the caller leaves out: ModbusSlaveContext creates their (default) blocks itself; those are what is dumped
@@ -293,6 +317,12 @@ def run_history(desc, abstract_reqs, decoder=None, per_step_dump=False):
             outs.append({'execute_raised': errkind(e)})
         else:
             outs.append(pdus.resp_to_json(sent[0]) if len(sent) == 1 else {'sent': len(sent)})
+        # the request is the server's to throw away: whatever happens to its value lists after execute() must not reach the tables
+        for attr in ('values', 'write_registers', 'registers', 'bits'):
+            v = getattr(obj, attr, None)
+            if isinstance(v, list):
+                for i in range(len(v)):
+                    v[i] = (not v[i]) if isinstance(v[i], bool) else ((v[i] + 1) & 0xFFFF if isinstance(v[i], int) else v[i])
         if per_step_dump:
             dumps.append(dump_slave(blocks))
     return model_reqs, outs, dumps, dump_slave(blocks)
